@@ -1,4 +1,6 @@
 import WM.Model.Matcher
+import WM.Model.MatcherMulti
+import WM.Model.MatcherCombo
 import WM.Spec.Den
 /-
 Matcher *trees*: the functors of `WM/Model/Matcher.lean` iterated along a `Shape`.
@@ -15,6 +17,7 @@ inductive Shape where
   | union (a b : Shape) | dismax (a b : Shape) | inter (a b : Shape)
   | andNot (a b : Shape) | andMaybe (a b : Shape) | require (a b : Shape)
   | boost (c : Shape) | filter (c : Shape) | inverse (c : Shape) | const (c : Shape)
+  | multi (c : Shape) | aunion (c : Shape)
   deriving Repr, DecidableEq
 
 /-- State of a matcher tree of the given shape. -/
@@ -32,6 +35,8 @@ def St : Shape → Type
   | .filter c => Filter (St c)
   | .inverse c => Inverse (St c)
   | .const c => Const (St c)
+  | .multi c => Multi (St c)
+  | .aunion c => AUnion (St c)
 
 /-- Operation table of a matcher tree. -/
 def ops : (s : Shape) → Ops (St s)
@@ -48,6 +53,8 @@ def ops : (s : Shape) → Ops (St s)
   | .filter c => Filter.ops (ops c)
   | .inverse c => Inverse.ops (ops c)
   | .const c => Const.ops (ops c)
+  | .multi c => Multi.ops (ops c)
+  | .aunion c => AUnion.ops (ops c)
 
 /-- A matcher of any shape. -/
 abbrev Any := (s : Shape) × St s
@@ -82,6 +89,12 @@ def mkInverse (c : Any) (limit : Nat) (missing : List Nat) (weight : Rat) (id : 
   let m ← Inverse.init (ops c.1) c.2 limit missing weight id
   pure ⟨.inverse c.1, m⟩
 def mkConst (c : Any) (score : Rat) : Any := ⟨.const c.1, ⟨c.2, score⟩⟩
+/-- `MultiMatcher(matchers, idoffsets, scorer)` over sub-matchers of one class -/
+def mkMulti (c : Shape) (segs : List (St c × Nat)) : Any := ⟨.multi c, Multi.init (ops c) segs 0⟩
+/-- `ArrayUnionMatcher(submatchers, doccount, boost, partsize)` over sub-matchers of one class -/
+def mkAUnion (c : Shape) (subs : List (St c)) (doccount : Nat) (boost : Rat) (partsize : Nat) : R Any := do
+  let m ← AUnion.init (ops c) subs doccount boost partsize
+  pure ⟨.aunion c, m⟩
 
 /-! ## `replace(minquality)`
 
@@ -280,6 +293,10 @@ def replace : (s : Shape) → St s → Rat → Repl
     else do
       let (c, r) ← replace sc m.child 0
       if c then pure (true, mkConst r m.score) else pure (false, ⟨.const sc, m⟩)
+  | .multi sc, m, q => do                                          -- MultiMatcher.replace
+    let (m', ch) ← Multi.replaceCore (ops sc) m q
+    if !Multi.isActive m' then nullRepl else pure (ch, ⟨.multi sc, m'⟩)
+  | .aunion sc, m, _ => pure (false, ⟨.aunion sc, m⟩)             -- Matcher.replace: self
 
 namespace Any
 def replace (m : Any) (q : Rat) : R Any := do
@@ -319,6 +336,8 @@ def den : (s : Shape) → St s → Den
   | .filter c, m => scale m.boost (keepIds m.ids m.exclude (den c m.child))
   | .inverse c, m => complement m.id m.limit m.missing (den c m.child) m.weight
   | .const c, m => constScore m.score (den c m.child)
+  | .multi c, m => Multi.den (den c) m
+  | .aunion c, m => AUnion.den (den c) m
 
 /-- The complete result list (what `reset()` returns to). -/
 def full : (s : Shape) → St s → Den
@@ -335,6 +354,8 @@ def full : (s : Shape) → St s → Den
   | .filter c, m => scale m.boost (keepIds m.ids m.exclude (full c m.child))
   | .inverse c, m => complement 0 m.limit m.missing (full c m.child) m.weight
   | .const c, m => constScore m.score (full c m.child)
+  | .multi c, m => Multi.full (full c) m
+  | .aunion c, m => AUnion.full (full c) m
 
 namespace Any
 def den (m : Any) : Den := WM.Matcher.den m.1 m.2
@@ -362,6 +383,49 @@ def allIdsLoop : Nat → Any → Nat → R (List Nat)
 
 def allIds (m : Any) : R (List Nat) := allIdsLoop (m.den.length + 1) m 0
 
+/-! ## `all_ids()` as each class defines it
+
+`ListMatcher.all_ids` (`iter(self._ids)`: every id, whatever the position), `IntersectionMatcher.all_ids`
+(`sorted(set(a.all_ids()) & set(b.all_ids()))`; `RequireMatcher` inherits `WrappingMatcher.all_ids` of its
+`IntersectionMatcher` child), `WrappingMatcher.all_ids` (the child's; also `ConstantScoreWrapperMatcher`),
+`FilterMatcher.all_ids` (the child's ids filtered), `MultiMatcher.all_ids` (every sub-matcher's ids plus its
+offset, from the first sub-matcher on), `NullMatcher.all_ids` (`[]`); the other classes (`W3LeafMatcher`, `Union`,
+`DisjunctionMax`, `AndNot`, `AndMaybe`, `Inverse`) run the base-class generator above.  The lists the
+sub-matchers yield ascend strictly, so `sorted(set(a) & set(b))` is `a` restricted to the members of `b`. -/
+
+/-- `MultiMatcher.all_ids` given the `all_ids` of the sub-matchers' class -/
+def multiAllIds {α : Type} (f : α → R (List Nat)) : List (α × Nat) → R (List Nat)
+  | [] => pure []
+  | s :: ss => do
+    let x ← f s.1
+    let rest ← multiAllIds f ss
+    pure (x.map (· + s.2) ++ rest)
+
+def allIdsO : (s : Shape) → St s → R (List Nat)
+  | .null, _ => pure []
+  | .list, m => pure m.ids
+  | .inter a b, m => do
+    let x ← allIdsO a m.a
+    let y ← allIdsO b m.b
+    pure (x.filter fun i => y.contains i)
+  | .require a b, m => do
+    let x ← allIdsO a m.a
+    let y ← allIdsO b m.b
+    pure (x.filter fun i => y.contains i)
+  | .boost c, m => allIdsO c m.child
+  | .const c, m => allIdsO c m.child
+  | .filter c, m => do
+    let x ← allIdsO c m.child
+    pure (x.filter fun i => !Filter.rejects m.ids m.exclude i)
+  | .multi c, m => multiAllIds (allIdsO c) m.segs
+  | .aunion c, m => AUnion.allIds (ops c) m
+  | .leaf, m => allIds ⟨.leaf, m⟩
+  | .union a b, m => allIds ⟨.union a b, m⟩
+  | .dismax a b, m => allIds ⟨.dismax a b, m⟩
+  | .andNot a b, m => allIds ⟨.andNot a b, m⟩
+  | .andMaybe a b, m => allIds ⟨.andMaybe a b, m⟩
+  | .inverse c, m => allIds ⟨.inverse c, m⟩
+
 /-! ## running a cursor program on a tree -/
 
 def Cmd.run (s : Shape) : Cmd → St s → R (St s)
@@ -372,6 +436,16 @@ def Cmd.run (s : Shape) : Cmd → St s → R (St s)
 def run (s : Shape) : List Cmd → St s → R (St s)
   | [], m => .ok m
   | c :: cs, m => (c.run s m).bind (run s cs)
+
+/-- programs that also call `replace()` (the shape may change: they run on `Any`) -/
+def CmdR.run : CmdR → Any → R Any
+  | .next, m => do let s ← (ops m.1).next m.2; pure ⟨m.1, s⟩
+  | .skipTo t, m => do let s ← (ops m.1).skipTo m.2 t; pure ⟨m.1, s⟩
+  | .replace0, m => m.replace 0
+
+def runR : List CmdR → Any → R Any
+  | [], m => .ok m
+  | c :: cs, m => (c.run m).bind (runR cs)
 
 /-- what a constructed matcher denotes (`none` if the constructor raised) -/
 def denOf (r : R Any) : Option (Den × Bool) :=
